@@ -1,4 +1,5 @@
-"""C09 helper: renders FnEnv scenarios to real Python modules and replays TLC behaviours on (f, to_graph(f), convert()(f)).
+"""C09 helper: renders FnEnv scenarios to real Python modules and replays TLC behaviours on (f, to_graph(f), convert()(f),
+to_graph(a caller of f)).
 
 Nothing here decides what is expected: every expected observation / heap / probe result is read from the
 records printed by spec/FnEnv.tla.  This module only (1) writes the source of a scenario, (2) drives the real
@@ -43,11 +44,25 @@ def _alias(ident):
     return m
 
 
-def _deco(key):
+def _deco(key, wrap):
+    """A counting decorator; with `wrap` it returns a plain-Python wrapper instead of the function itself."""
     def apply(fn):
         DECO[key] = DECO.get(key, 0) + 1
-        return fn
+        if not wrap:
+            return fn
+
+        def _w(*_a, **_k):
+            return fn(*_a, **_k)
+        _w.__wrapped__ = fn
+        return _w
     return apply
+
+
+def _fwd(fn):
+    """A caller of fn: converting it (recursively) makes fn a callee reached through converted_call."""
+    def _r(*_a, **_k):
+        return fn(*_a, **_k)
+    return _r
 
 '''
 
@@ -140,7 +155,7 @@ def render_scenario(sc, K):
 
     ni = sc['ni']
     if kind == 'decorated':
-        L.append('_deco_%d = _deco((%d, 1))' % (K, K))
+        L.append('_deco_%d = _deco((%d, 1), %s)' % (K, K, 'True' if sc.get('wrap') else 'False'))
         L.append('')
     L.append('def make_%d():' % K)
     L.append('    _out = []')
@@ -225,7 +240,7 @@ class ConvertFailed(Exception):
 
 
 class Inst(object):
-    __slots__ = ('f', 'fu', 'selfobj', 'sib', 'sget', 'g', 'c', 'cells', 'refd', 'refkw', 'key', 'statics_ok')
+    __slots__ = ('f', 'fu', 'selfobj', 'sib', 'sget', 'g', 'c', 'r', 'cells', 'refd', 'refkw', 'key', 'statics_ok')
 
 
 def cell_value(cell):
@@ -247,6 +262,7 @@ class Runner(object):
         self.sc = sc
         self.kind = sc['kind']
         self.method = self.kind == 'method'
+        self.wrap = bool(sc.get('wrap'))
         self.params = sc['params']
         self.cparams = ([sc['selfparam']] if self.method else []) + list(self.params)
         self.names = FREE[:len(sc['free'])]
@@ -267,6 +283,11 @@ class Runner(object):
         insts = []
         for i, (f, sib, sget) in enumerate(self.make()):
             it = Inst()
+            # side "r": a caller that forwards its arguments to f.  For a decorator that returns a wrapper the name is
+            # bound to that wrapper - it is the caller - and f is the function it wraps.
+            caller = f if self.wrap else mod._fwd(f)
+            if self.wrap:
+                f = f.__wrapped__
             it.f = f
             it.fu = f.__func__ if self.method else f
             it.selfobj = f.__self__ if self.method else None
@@ -282,6 +303,13 @@ class Runner(object):
                     if o.__class__ is list:
                         del o[:]
             it.c = self.malt.convert()(f) if mode == 'real' else f
+            if mode == 'real':
+                try:
+                    it.r = self.malt.to_graph(caller)
+                except Exception as e:
+                    raise ConvertFailed(e)
+            else:
+                it.r = caller                # plain CPython: the unconverted caller
             it.statics_ok = False
             insts.append(it)
         return insts
@@ -298,6 +326,8 @@ class Runner(object):
     # ---- calls ----------------------------------------------------------------------------------------
     def side_fn(self, it, side, mode):
         """-> (callable, tuple of leading positional arguments supplied by the caller)."""
+        if side == 'r':
+            return it.r, ()
         if mode == 'twin' or side == 'f':
             return it.f, ()
         if side == 'c':
@@ -435,12 +465,13 @@ class Runner(object):
             raise Problem('global-value', what, dict(expected=post[18], got=repr(mod.G)[:80]))
 
     def check_probes(self, insts, probes, mode, what, last):
-        """The effect-free full call on every side (the convert() wrapper, which converts on every call, only
-        after the last step)."""
+        """The effect-free full call on every side (the convert() wrapper and the converted caller, which convert on
+        every call, only after the last step; the caller only in the jobs whose behaviours call through it)."""
         fullnpos = sum(1 for p in self.params if p['kind'] in ('posonly', 'pos'))
         fullkw = [p['name'] for p in self.params if p['kind'] == 'kwonly']
         for i, it in enumerate(insts):
-            sides = ['f'] if mode == 'twin' else (['f'] + (['g'] if it.g is not None else []) + (['c'] if last else []))
+            sides = ['f'] + (['g'] if mode == 'real' and it.g is not None else []) + (
+                (['c'] if mode == 'real' else []) + (['r'] if self.sc['rprobe'] else []) if last else [])
             for side in sides:
                 got = self.do_call(it, side, mode, fullnpos, fullkw, False)
                 self.compare_call(it, got, probes[i], fullnpos, '%s:probe-%s' % (what, side))
